@@ -73,6 +73,16 @@ def build_schema(
     )
 
     if not ignore_extensions:
+        for definition in ast.definitions:
+            if isinstance(
+                definition, _ast.TypeExtension
+            ) and not schema.has_type(definition.name.value):
+                raise ExtensionError(
+                    'Cannot extend undefined type "%s".'
+                    % definition.name.value,
+                    [definition],
+                )
+
         schema = extend_schema(
             schema, ast, additional_types=additional_types, strict=False
         )
